@@ -133,7 +133,12 @@ def _run_driver_shard(cases, workdir, shard):
             continue
         k, _, v = line.partition("\t")
         results[k] = json.loads(v)
+        if len(LAST_MODEL_RAW) < 400:
+            LAST_MODEL_RAW[k] = v
     return results
+
+
+LAST_MODEL_RAW = {}
 
 
 def run_cases(cases, keep_workdir=False):
@@ -317,3 +322,47 @@ def run_link_model(lines):
         for r in ex.map(one, _chunks(lines, NPROC)):
             res.update(r)
     return res
+
+
+DRIVER_SPEC = os.path.join(BUILD, "driver_spec")
+
+
+def run_valid_spec(cases):
+    """extracted Coq `valid` (Spec/C16.v) on each serial document -> id -> {"valid":..., "known":...}"""
+    if not os.path.exists(DRIVER_SPEC):
+        return None
+    lines = ["(valid %s %s)" % (c.cid, enc.sx_record("document", c.doc)) for c in cases if c.raw_yaml is None]
+    if not lines:
+        return {}
+    res = {}
+    def one(chunk):
+        proc = subprocess.run([DRIVER_SPEC], input=("\n".join(chunk) + "\n").encode("utf-8"),
+                              stdout=subprocess.PIPE, stderr=subprocess.PIPE, timeout=3000,
+                              preexec_fn=_big_stack, env=dict(os.environ, OCAMLRUNPARAM="s=16M"))
+        if proc.returncode != 0:
+            raise RuntimeError("spec driver failed: %s" % proc.stderr.decode()[-2000:])
+        out = {}
+        for line in proc.stdout.decode("utf-8", "replace").split("\n"):
+            if line:
+                k, _, v = line.partition("\t")
+                out[k] = json.loads(v)
+        return out
+    with ThreadPoolExecutor(max_workers=NPROC) as ex:
+        for r in ex.map(one, _chunks(lines, NPROC)):
+            res.update(r)
+    return res
+
+
+def run_impl_only(cases):
+    """implementation only (metamorphic companions)"""
+    workdir = tempfile.mkdtemp(prefix="runi_", dir=os.path.join(BUILD, "scratch"))
+    try:
+        shards = _chunks(cases, NPROC)
+        impl = {}
+        with ThreadPoolExecutor(max_workers=NPROC) as ex:
+            fi = [ex.submit(_run_harness_shard, s, os.path.join(workdir, "h%d" % i), i) for i, s in enumerate(shards)]
+            for f in fi:
+                impl.update(f.result())
+        return impl
+    finally:
+        shutil.rmtree(workdir, ignore_errors=True)
